@@ -190,6 +190,15 @@ def _nested_dict_get(d, path):
     return current
 
 
+def _nested_dict_merge(target, update):
+    """Merge the nested dictionary `update` into `target`, descending where both hold a dictionary."""
+    for name, value in update.items():
+        if isinstance(value, dict) and isinstance(target.get(name), dict):
+            _nested_dict_merge(target[name], value)
+        else:
+            target[name] = value
+
+
 def _tags_state(jaxpr: Jaxpr) -> bool:
     """Whether `jaxpr`, or a jaxpr nested in one of its equations, tags a value or enters a namespace."""
     for eqn in jaxpr.eqns:
@@ -324,11 +333,11 @@ class State:
 
                 # Merge vectorized scan states into collected state, under the namespaces
                 # that enclose the scan (scan_states is already vectorized by scan)
-                target = _nested_dict_get(
-                    self.collected_state, tuple(self.namespace_stack)
-                )
-                for name, vectorized_values in scan_states.items():
-                    target[name] = vectorized_values
+                if scan_states:
+                    target = _nested_dict_get(
+                        self.collected_state, tuple(self.namespace_stack)
+                    )
+                    _nested_dict_merge(target, scan_states)
 
                 outvals = jtu.tree_leaves(
                     (flat_carry_out, scanned_out),
